@@ -21,11 +21,14 @@ theorem trueValue_expm1_eq (n : Bool) (c : Nat) (e : Int) :
       else if n && e + (ndigits c : Int) > 2 then
         some (true, ⟨⟨1 - pow10 (-40), 1⟩, 0⟩)
       else if !n && e + (ndigits c : Int) > 2 then
-        let t := Encl.exp x
-        some (false, ⟨⟨t.m.lo * (1 - pow10 (-40)), t.m.hi⟩, t.k⟩)
+        match Encl.exp x with
+        | none => none
+        | some t => some (false, ⟨⟨t.m.lo * (1 - pow10 (-40)), t.m.hi⟩, t.k⟩)
       else
-        let v := Encl.expm1 x
-        if v.lo > 0 then some (false, ⟨v, 0⟩) else if v.hi < 0 then some (true, ⟨v.neg, 0⟩) else none := rfl
+        match Encl.expm1 x with
+        | none => none
+        | some v =>
+          if v.lo > 0 then some (false, ⟨v, 0⟩) else if v.hi < 0 then some (true, ⟨v.neg, 0⟩) else none := rfl
 
 /-! ## real-analysis facts -/
 
@@ -138,11 +141,13 @@ theorem trueValue_expm1_sound (n : Bool) (c : Nat) (e : Int) (tn : Bool) (t : Sc
     rename_i hpos
     simp only [Bool.and_eq_true, Bool.not_eq_true', decide_eq_true_eq] at hpos
     obtain ⟨rfl, h2⟩ := hpos
+    rw [xguard false c e (by omega) (by omega)] at h
+    split at h
+    · exact absurd h (by simp)
+    rename_i s hse
     simp only [Option.some.injEq, Prod.mk.injEq] at h
     obtain ⟨rfl, rfl⟩ := h
-    rw [xguard false c e (by omega) (by omega)]
-    have hs := exp_sound' ((Val.fin false c e).toRat)
-      (le_trans (abs_toRat_le_of false hc0 e 7 (by omega)) (by norm_num))
+    have hs := exp_sound hse
     obtain ⟨z, hz, hzT⟩ := hs
     have hA : (100 : ℝ) ≤ (c : ℝ) * (10 : ℝ) ^ e := by
       have : (10 : ℝ) ^ (2 : Int) ≤ (10 : ℝ) ^ (e + (ndigits c : Int) - 1) :=
@@ -153,9 +158,9 @@ theorem trueValue_expm1_sound (n : Bool) (c : Nat) (e : Int) (tn : Bool) (t : Sc
     have hb := exp_neg_le_of_ge_100 hA
     have hδpos := Real.exp_pos (-((c : ℝ) * (10 : ℝ) ^ e))
     set δ := Real.exp (-((c : ℝ) * (10 : ℝ) ^ e)) with hδ
-    have hk : (0 : ℝ) < (10 : ℝ) ^ (Encl.exp (Val.fin false c e).toRat).k := zpow_pos (by norm_num) _
+    have hk : (0 : ℝ) < (10 : ℝ) ^ s.k := zpow_pos (by norm_num) _
     have hzpos : 0 < z := by
-      have : 0 < z * (10 : ℝ) ^ (Encl.exp (Val.fin false c e).toRat).k := by
+      have : 0 < z * (10 : ℝ) ^ s.k := by
         rw [← hzT]; exact Real.exp_pos _
       exact (mul_pos_iff_of_pos_right hk).1 this
     refine ⟨Real.exp (X false c e) - 1, ?_, ?_, by simp⟩
@@ -167,19 +172,19 @@ theorem trueValue_expm1_sound (n : Bool) (c : Nat) (e : Int) (tn : Bool) (t : Sc
       rw [e40]; push_cast
       have hδ1 : δ ≤ 1 := le_trans hb (by norm_num)
       constructor
-      · rcases le_total 0 ((Encl.exp (Val.fin false c e).toRat).m.lo : ℝ) with hl | hl
+      · rcases le_total 0 (s.m.lo : ℝ) with hl | hl
         · have := hz.1
-          have h1 : ((Encl.exp (Val.fin false c e).toRat).m.lo : ℝ) * (1 - 1 / 10 ^ 40) ≤
+          have h1 : (s.m.lo : ℝ) * (1 - 1 / 10 ^ 40) ≤
               z * (1 - 1 / 10 ^ 40) := mul_le_mul_of_nonneg_right hz.1 (by norm_num)
           have h2 : z * (1 - 1 / 10 ^ 40) ≤ z * (1 - δ) := mul_le_mul_of_nonneg_left (by linarith) hzpos.le
           linarith
-        · have h1 : ((Encl.exp (Val.fin false c e).toRat).m.lo : ℝ) * (1 - 1 / 10 ^ 40) ≤ 0 :=
+        · have h1 : (s.m.lo : ℝ) * (1 - 1 / 10 ^ 40) ≤ 0 :=
             mul_nonpos_of_nonpos_of_nonneg hl (by norm_num)
           have h2 : 0 ≤ z * (1 - δ) := mul_nonneg hzpos.le (by linarith)
           linarith
       · have : z * (1 - δ) ≤ z * 1 := mul_le_mul_of_nonneg_left (by linarith) hzpos.le
         linarith [hz.2]
-    · have hX' : Real.exp (X false c e) = z * (10 : ℝ) ^ (Encl.exp (Val.fin false c e).toRat).k := hzT
+    · have hX' : Real.exp (X false c e) = z * (10 : ℝ) ^ s.k := hzT
       have hone : Real.exp (X false c e) * δ = 1 := by
         rw [hδ, ← hXv, ← Real.exp_add]; simp
       rw [show Real.exp (X false c e) - 1 = Real.exp (X false c e) * (1 - δ) by rw [mul_sub, hone, mul_one],
@@ -194,21 +199,64 @@ theorem trueValue_expm1_sound (n : Bool) (c : Nat) (e : Int) (tn : Bool) (t : Sc
     · exact hpos (by simp [hcon])
     · exact hneg (by simp [hcon])
   rw [xguard n c e (by omega) (by omega)] at h
-  have hs := expm1_sound' ((Val.fin n c e).toRat)
-    (le_trans (abs_toRat_le_of n hc0 e 2 (by omega)) (by norm_num))
+  split at h
+  · exact absurd h (by simp)
+  rename_i v hv
+  have hs := expm1_sound hv
   change (Real.exp (X n c e) - 1) ∈ᵢ _ at hs
   split at h
   · rename_i hvpos
     simp only [Option.some.injEq, Prod.mk.injEq] at h
     obtain ⟨rfl, rfl⟩ := h
-    have : (0 : ℝ) < ((Encl.expm1 (Val.fin n c e).toRat).lo : ℝ) := by exact_mod_cast hvpos
+    have : (0 : ℝ) < (v.lo : ℝ) := by exact_mod_cast hvpos
     exact ⟨Real.exp (X n c e) - 1, lt_of_lt_of_le this hs.1, ⟨_, hs, by simp⟩, by simp⟩
   · split at h
     · rename_i hvneg
       simp only [Option.some.injEq, Prod.mk.injEq] at h
       obtain ⟨rfl, rfl⟩ := h
-      have : ((Encl.expm1 (Val.fin n c e).toRat).hi : ℝ) < 0 := by exact_mod_cast hvneg
+      have : (v.hi : ℝ) < 0 := by exact_mod_cast hvneg
       exact ⟨-(Real.exp (X n c e) - 1), by linarith [hs.2], ⟨_, mem_neg hs, by simp⟩, by simp⟩
     · exact absurd h (by simp)
+
+/-- the oracle answers for Expm1 whenever the argument is not huge, except when the enclosure of the result
+    straddles zero (which does not happen for a non-zero operand, but that needs a width bound) -/
+theorem trueValue_expm1_isSome_or (n : Bool) (c : Nat) (e : Int) (hc0 : c ≠ 0) (hc : c < 10 ^ 35)
+    (h7 : e + (ndigits c : Int) ≤ 7) :
+    (∃ tn t, trueValue .expm1 n c e = some (tn, t)) ∨
+    (e + (ndigits c : Int) ≤ 2 ∧ ∃ v, Encl.expm1 (Val.fin n c e).toRat = some v ∧ v.lo ≤ 0 ∧ 0 ≤ v.hi) := by
+  have hnd := ndigits_le_35 hc0 hc
+  have hnd1 := ndigits_pos c
+  rw [trueValue_expm1_eq]
+  simp only
+  rw [if_neg (by omega)]
+  split
+  · exact Or.inl ⟨_, _, rfl⟩
+  rename_i h40
+  split
+  · exact Or.inl ⟨_, _, rfl⟩
+  rename_i hneg
+  split
+  · rw [xguard n c e (by omega) (by omega)]
+    obtain ⟨s, hs⟩ := exp_isSome (Val.fin n c e).toRat
+      (le_trans (abs_toRat_le_of n hc0 e 7 (by omega)) (by norm_num))
+    rw [hs]; exact Or.inl ⟨_, _, rfl⟩
+  rename_i hpos
+  have he2 : e + (ndigits c : Int) ≤ 2 := by
+    by_contra hcon
+    have hcon : e + (ndigits c : Int) > 2 := by omega
+    cases n
+    · exact hpos (by simp [hcon])
+    · exact hneg (by simp [hcon])
+  rw [xguard n c e (by omega) (by omega)]
+  obtain ⟨v, hv⟩ := expm1_isSome (Val.fin n c e).toRat
+    (le_trans (abs_toRat_le_of n hc0 e 2 (by omega)) (by norm_num))
+  rw [hv]
+  simp only
+  split
+  · exact Or.inl ⟨_, _, rfl⟩
+  · split
+    · exact Or.inl ⟨_, _, rfl⟩
+    · rename_i h1 h2
+      exact Or.inr ⟨he2, v, rfl, not_lt.1 h1, not_lt.1 h2⟩
 
 end EnclPf
